@@ -902,6 +902,35 @@ class Unit:
             em.emit('// ---- spec library: %s' % sp)
             em.emit(open(p).read(), ('spec', sp))
         meta = {'functions': {}}
+        # R2' guard: the flattened namespace identifies a free function by its name alone.  If the sources define
+        # two free functions with the same name in different modules (e.g. a wrapper at the crate root that
+        # replaces a re-export of the same name), calls would silently be resolved to the wrong one: no verdict.
+        _seen_fn = {}
+        for _src, _idx in sources.items():
+            for _k, _it in _idx.items():
+                if isinstance(_it, list) or getattr(_it, 'kind', None) != 'fn':
+                    continue
+                if 'impl' in _k or ' for ' in _k or 'trait ' in _k:
+                    continue
+                _n = _k.split('::')[-1]
+                if _n in _seen_fn and _seen_fn[_n] != (_src, _k):
+                    used = set(x.key.split('::')[-1] for x in self.entries if getattr(x, 'key', None) and x.kind == 'fn')
+                    if _n in used:
+                        raise AnchorLost('R2 flattening: function name `%s` is defined in more than one module (%s, %s); '
+                                         'calls cannot be attributed' % (_n, _seen_fn[_n][1], _k))
+                _seen_fn.setdefault(_n, (_src, _k))
+        # the same for constants: two constants of one name with different definitions
+        _seen_c = {}
+        _used_c = set(re.sub(r'^.*const ', '', x.key) for x in self.entries if getattr(x, 'key', None) and x.kind == 'item' and re.search(r'(^|::)const \w+$', x.key))
+        for _src, _idx in sources.items():
+            for _k, _it in _idx.items():
+                if isinstance(_it, list) or getattr(_it, 'kind', None) != 'const' or 'impl' in _k or 'trait ' in _k:
+                    continue
+                _n = re.sub(r'^.*const ', '', _k)
+                _t = re.sub(r'^\s*(pub(\([a-z]+\))?\s+)?', '', rsx.ws_norm(strip_attrs_and_comments(_it.text)))
+                if _n in _seen_c and _seen_c[_n][1] != _t and _n in _used_c:
+                    raise AnchorLost('R2 flattening: constant `%s` has two different definitions (%s, %s)' % (_n, _seen_c[_n][0], _k))
+                _seen_c.setdefault(_n, (_k, _t))
         for e in self.entries:
             if e.kind == 'raw':
                 txt = e.raw(mode) if callable(e.raw) else e.raw
